@@ -298,6 +298,11 @@ MUTANTS = [
         self.rec(key_hash, key.shape)
         self.rec(key_hash, key.data.tobytes())""",
          new="""        self.rec(key_hash, key.data.tobytes())""",
+         # (since /repo 59a1ae7 the DataWrapper feeds the dtype as well: the
+         # original defect is both sites together)
+         new2=("""        self.rec(key_hash, key.dtype)
+        self.update_for_dataclass(key_hash, key)""",
+               """        self.update_for_dataclass(key_hash, key)"""),
          needs="wrapped data with identical bytes and another dtype"),
     dict(id="c18-ndarray-key-via-python-hash", prop="C18",
          file="analysis/__init__.py",
